@@ -1,15 +1,16 @@
 """C16 — membership change events add up to the live membership."""
 import itertools
+import re
 
 ID = 'C16'
 RULE = ('one case = the real watch_membership_changes task (hook H3) fed with a sequence of membership snapshots over ids 0..3 (joins, leaves, address changes, rejoin; the local node 0 always present), '
-        'real tokio watch channel and real WatchStream subscribers created at every position and polled at chosen positions; observed: every delta a subscriber receives and its accumulated '
+        'real tokio watch channel and real MembershipChanges subscriber streams (what membership_changes() returns) created at every position and polled at chosen positions; observed: every delta a subscriber receives and its accumulated '
         'live map at the end, compared with the Lean model and with the specification "live map = other members of the last snapshot"; quick: all snapshot sequences of length <=3 over a 6-snapshot alphabet '
         'x {eager subscriber from the start, late subscriber, slow subscriber}; thorough: length <=5 and all read placements; plus consumer-side cases: the real task distributor of a node (hook) is fed membership changes incl. an address change delivered as ONE change (same id in left and joined) and must send the next write to exactly the current members; non-trivial = at least one leave or address change; distinct by hash')
-ASSUMPTIONS = ['the membership layer delivers snapshots (states), the watcher turns them into deltas: both as in datacake-node/src/lib.rs',
+ASSUMPTIONS = ['the membership layer delivers snapshots (states), the watcher republishes each one it has processed and every subscriber stream turns them into deltas against what it handed out last: as in datacake-node/src/lib.rs',
                'tokio::sync::watch keeps only the latest value (modelled as a version + value cell)']
-TRUSTED_BASE = ['correspondence: dcharness (real watch_membership_changes + tokio watch + WatchStream) vs dcdriver (Datacake.Membership model)']
-THEOREM_NOTE = 'Datacake.Membership.watchStep / Chan / Sub.poll (Model/Membership.lean)'
+TRUSTED_BASE = ['correspondence: dcharness (real watch_membership_changes + tokio watch + MembershipChanges stream) vs dcdriver (Datacake.Membership model)']
+THEOREM_NOTE = 'Datacake.Membership.watchStep / delta / Chan / Sub.poll (Model/Membership.lean)'
 JOBS = 8
 SNAPS = ['0:100', '0:100,1:101', '0:100,1:101,2:102', '0:100,2:102', '0:100,1:111', '0:100,1:101,2:102,3:103']
 
@@ -136,31 +137,9 @@ def oracle(case, impl):
     return bad
 
 
-def explain(v):
-    """D9: a subscriber that was not there from the start, or did not read after every publication,
-    loses deltas on the latest-value channel.  Only attributed when the committed model agrees with
-    the implementation on the whole case."""
-    if v['disagree']:
-        return None
-    case = v['case']
-    snaps = [i for i, l in enumerate(case) if l.startswith('mem-snap')]
-    sub = [i for i, l in enumerate(case) if l == 'mem-sub'][0]
-    late = any(i < sub for i in snaps)
-    # slow: two publications without a read in between (after the subscription)
-    slow, pending = False, False
-    for l in case[sub:]:
-        if l.startswith('mem-snap'):
-            if pending: slow = True
-            pending = True
-        elif l.startswith('mem-read'):
-            pending = False
-    if (late or slow) and all(s[1].startswith('mem-live') for s in v['spec']):
-        return 'D9-lossy-delta-channel'
-    return None
-
-
 def nontrivial(case, impl):
-    return any('left=' in o and not o.endswith('left=-') for o in impl) or any(l.startswith('mem-snap') and '1:111' in l for l in case)
+    # at least one delta with a departure (or address change) was handed to a subscriber
+    return any(o.startswith('read') and re.search(r' -[^\]-]', o) for o in impl) or any(l.startswith('mem-snap') and '1:111' in l for l in case)
 
 
 def stats(verdicts):
